@@ -287,6 +287,8 @@ def sanitiser_strength(rep: Report) -> dict[str, set[str]]:
         for st in stmts:
             if isinstance(st, ast.Assign) and len(st.targets) == 1 and isinstance(st.targets[0], ast.Name):
                 env[st.targets[0].id] = strength_of(st.value, binding)
+            elif isinstance(st, ast.AnnAssign) and isinstance(st.target, ast.Name) and st.value is not None:
+                env[st.target.id] = strength_of(st.value, binding)
             elif isinstance(st, ast.For) and isinstance(st.target, ast.Name) \
                     and isinstance(st.iter, ast.Constant) and isinstance(st.iter.value, str):
                 for chx in st.iter.value:
